@@ -11,7 +11,7 @@ else
   git -C $dir apply $patch || { echo "patch failed"; git -C /repo worktree remove --force $dir; exit 2; }
 fi
 for p in "$@"; do
-  out=$(cd $home && VERIF_REPO=$dir VERIF_EVIDENCE_DIR=/tmp/verif-mut-evidence-$name VERIF_REPLAYS_DIR=/tmp/verif-mut-evidence-$name/replays ./check $p 2>/dev/null | grep -E "^(VIOLATION|OK|KNOWN)" | head -3)
+  out=$(cd $home && VERIF_REPO=$dir VERIF_EVIDENCE_DIR=/tmp/verif-mut-evidence-$name VERIF_REPLAYS_DIR=/tmp/verif-mut-evidence-$name/replays ./check $p 2>/dev/null | grep -E "^(VIOLATION|OK|KNOWN|INCONCLUSIVE)" | head -3)
   echo "[$name] $p: ${out:-INCONCLUSIVE}"
 done
 git -C /repo worktree remove --force $dir
